@@ -10,9 +10,9 @@ import (
 
 func init() {
 	register(&propInfo{
-		ID: "C10",
+		ID:          "C10",
 		Explanation: "Static index-safety and key-hygiene analysis of every place where bytes decoded from a peer steer an operation that can panic: (R10.1) every index into a slice filled by a JSON decode is dominated by a length test that makes it in-range; (R10.2) every interface-typed key used on the per-connection tables originates from the id normaliser (or from locally generated requests); (R10.3) the frame executor dispatches only on the nil branches of both the frame-decode error and the id-normalisation error; (R10.4) results of comma-ok table lookups are used only on the found branch; (R10.5) the HTTP body is read through a limit strictly above the configured maximum, rejected exactly when it exceeds that maximum, and the rejection reaches neither a decoder nor the dispatcher; (R10.6) type assertions on decoded interface values use the comma-ok form.",
-		NotDecided: "Memory exhaustion by huge WebSocket frames (no read limit is configured by the library), panics inside user-supplied codecs, indexes into slices whose length is tied to the index by library invariants rather than by a local test (e.g. bytes.Buffer length), and whether a server keeps answering (liveness).",
+		NotDecided:  "Memory exhaustion by huge WebSocket frames (no read limit is configured by the library), panics inside user-supplied codecs, indexes into slices whose length is tied to the index by library invariants rather than by a local test (e.g. bytes.Buffer length), and whether a server keeps answering (liveness).",
 		Assumptions: []string{
 			"a slice is peer-sized when it is a local filled by encoding/json.Unmarshal or (*json.Decoder).Decode",
 			"loads of the same local variable between a dominating test and the guarded use denote the same value (the variable is not reassigned in between)",
@@ -295,6 +295,33 @@ func (c *Ctx) resultNormalised(call *ssa.Call, idx int, depth int) (bool, string
 	return true, "every return of helper " + fname(g) + " yields a normalised value", true
 }
 
+// resultStructNormalised: field f of the struct returned (as result idx) by a tree helper is normalised at every return.
+func (c *Ctx) resultStructNormalised(call *ssa.Call, idx int, f *types.Var, depth int) (bool, string, bool) {
+	g := c.P.unbound(staticCallee(call))
+	if g == nil || !c.P.allFns[g] || len(g.Blocks) == 0 {
+		return false, "", false
+	}
+	n := 0
+	bad := ""
+	allInstrsRaw(g, func(in ssa.Instruction) {
+		rt, ok := in.(*ssa.Return)
+		if !ok || idx >= len(rt.Results) {
+			return
+		}
+		n++
+		if ok, why := c.normalisedIDField(rt.Results[idx], f, depth+1); !ok && bad == "" {
+			bad = fmt.Sprintf("helper %s returns a struct whose id is not normalised (%s)", fname(g), why)
+		}
+	})
+	if n == 0 {
+		return false, "", false
+	}
+	if bad != "" {
+		return false, bad, true
+	}
+	return true, "every return of helper " + fname(g) + " yields a struct with a normalised id", true
+}
+
 func stripConvKeepIface(v ssa.Value) ssa.Value {
 	for {
 		switch x := v.(type) {
@@ -370,6 +397,17 @@ func (c *Ctx) normalisedIDField(sv ssa.Value, f *types.Var, depth int) (bool, st
 		if c.fromRequestQueue(s) {
 			return true, "locally minted request received from the request queue"
 		}
+		if call, ok := s.Tuple.(*ssa.Call); ok {
+			if ok, why, decided := c.resultStructNormalised(call, s.Index, f, depth); decided {
+				return ok, why
+			}
+		}
+	case *ssa.Call:
+		if ok, why, decided := c.resultStructNormalised(s, 0, f, depth); decided {
+			return ok, why
+		}
+	case *ssa.Const:
+		return true, "zero value"
 	}
 	return false, fmt.Sprintf("id field of a struct originating from %T", sv)
 }
@@ -402,14 +440,28 @@ func (c *Ctx) normalisedIDFieldAddr(fa *ssa.FieldAddr, load *ssa.UnOp, depth int
 	if c.fromRequestQueue(fa.X) {
 		return true, "locally minted request received from the request queue"
 	}
+	// field of an object reached through a pointer (e.g. a method receiver): if every write to
+	// the field is a visible store, all of them must store normalised ids
+	if c.closedField(f) && depth < 5 {
+		stores := usesOfKind(c.P.uses(f), "store")
+		if len(stores) > 0 {
+			for _, u := range stores {
+				if ok, why := c.normalisedKey(u.Val, depth+1); !ok {
+					return false, fmt.Sprintf("field %s is assigned an un-normalised value in %s (%s)", f.Name(), fname(u.Fn), why)
+				}
+			}
+			return true, "every assignment to field " + f.Name() + " stores a normalised id"
+		}
+	}
 	return false, fmt.Sprintf("id field addressed through %T", fa.X)
 }
 
 // allocFieldNormalisedAt: local struct variable `al`; is its field f normalised
 // when read at `at` (nil: at closure creation / any later point)? Accepted shapes:
-//  (a) the whole struct is a copy of a normalised parameter (single store of a Parameter);
-//  (b) a store of the normaliser's result into al.f must-precedes `at`, and no
-//      decode into al or other store to al.f lies between that store and `at`.
+//
+//	(a) the whole struct is a copy of a normalised parameter (single store of a Parameter);
+//	(b) a store of the normaliser's result into al.f must-precedes `at`, and no
+//	    decode into al or other store to al.f lies between that store and `at`.
 func (c *Ctx) allocFieldNormalisedAt(al *ssa.Alloc, f *types.Var, at ssa.Instruction, depth int) (bool, string) {
 	fn := al.Parent()
 	var wholeStores []*ssa.Store
@@ -1017,10 +1069,10 @@ func (c *Ctx) sizeRule(rule string) {
 				if decodeTarget(ci) != nil || calleeName(ci) == "encoding/json.NewDecoder" {
 					return true
 				}
-				return staticCallee(ci) != nil && staticCallee(ci) == r.FnDisp
+				return staticCallee(ci) != nil && p.unbound(staticCallee(ci)) == r.FnDisp
 			}
-			tReach := reachFromBlock(iff.Block().Succs[0], isDecodeOrDispatch, nil) != nil
-			fReach := reachFromBlock(iff.Block().Succs[1], isDecodeOrDispatch, nil) != nil
+			tReach := reachFromBlockUp(iff.Block().Succs[0], isDecodeOrDispatch, nil) != nil
+			fReach := reachFromBlockUp(iff.Block().Succs[1], isDecodeOrDispatch, nil) != nil
 			var rejectWhenTrue bool
 			switch {
 			case !tReach && fReach:
@@ -1062,7 +1114,7 @@ func (c *Ctx) sizeRule(rule string) {
 			if !rejectWhenTrue {
 				rej = iff.Block().Succs[1]
 			}
-			emits := reachFromBlock(rej, func(x ssa.Instruction) bool { return c.isErrFnCall(x) }, nil) != nil
+			emits := reachFromBlockUp(rej, func(x ssa.Instruction) bool { return c.isErrFnCall(x) }, nil) != nil
 			c.check(emits, rule, construct, c.ipos(cmp), fmt.Sprintf("limit max%+d, reject iff size > max, rejection replies with an error and reaches no decoder/handler", c1),
 				"the oversize branch does not emit an error reply")
 		})
